@@ -172,6 +172,8 @@ def units(tier, seed):
             out.append({"kind": "pipeline", "layouts": [l], "lo": lo, "hi": min(n, lo + shard)})
     if small:
         out.insert(0, {"kind": "pipeline", "layouts": small, "lo": 0, "hi": None})
+    out.append({"kind": "minimize"})
+    out.append({"kind": "pickle-history", "length": 4 if tier == "quick" else 5})
     for e in ENGINE_QUICK if tier == "quick" else ENGINE_THOROUGH:
         out.append({"kind": "engine", "engine": e, "seed": 11 + seed})
     return out
@@ -459,10 +461,16 @@ def check_pipeline(res, results, codes, phases, books, level, case, sample_info=
             shell = Summary.__new__(Summary)
             shell.error_summary = summ
             shell.sample_info = sample_info
+            shell.per_chain = False  # the constructor's default
         for per_chain in (True, False):
             want = ref.expected_rows(exp, per_chain)
             try:
                 df = shell.error_df(per_chain=per_chain)
+                cols = set(df.reset_index().columns)
+                if not df.empty and (("chain" in cols) != per_chain):
+                    viol("df", f"chain-level-per_chain-{per_chain}", f"Summary.error_df(per_chain={per_chain}) returned a table {'without' if per_chain else 'with'} a chain level (columns {sorted(map(str, cols))}); summary built with per_chain={getattr(shell, 'per_chain', None)}")
+                    ok = False
+                    continue
                 got = df_rows(df, per_chain)
             except Exception as e:
                 if not _liesel_raised(e):
@@ -757,9 +765,145 @@ def run_engine_unit(res, unit):
     res.sample({"engine": spec, "chains": chains, "transitions_per_chain": T, "sample_info": {k: int(v) for k, v in si.items()}}, limit=1)
 
 
+def run_pickle_history_unit(res, unit):
+    """Every word up to the stated length over {save A, save B (a longer run), save C, load} on ONE
+    path: a load returns the results that were saved last (error codes, epochs, positions)."""
+    import os
+    import tempfile
+
+    import numpy as np
+    from liesel.goose.engine import SamplingResults
+
+    lib()
+    layA = dict(chains=2, epochs=[["BURNIN", 1], ["POSTERIOR", 2]], chunk="epoch", kernels=["A"])
+    layB = dict(chains=2, epochs=[["BURNIN", 1], ["POSTERIOR", 2], ["POSTERIOR", 2]], chunk="epoch", kernels=["A"])
+    codes = {
+        "A": (layA, {kernel_id(0): np.array([[0, 1, 0], [0, 0, 2]], np.int32)}),
+        "B": (layB, {kernel_id(0): np.array([[0, 1, 0, 2, 2], [0, 0, 2, 1, 0]], np.int32)}),
+        "C": (layA, {kernel_id(0): np.array([[1, 1, 1], [2, 0, 0]], np.int32)}),
+    }
+
+    def view(r):
+        ti = r.transition_infos.combine_all().unwrap()
+        return ({k: np.asarray(v.error_code).tolist() for k, v in ti.items()},
+                [(int(e.type), int(e.duration)) for e in r.positions.get_epochs()],
+                np.asarray(r.get_posterior_samples()["x"]).tolist())
+
+    objs = {k: build_results(l, c) for k, (l, c) in codes.items()}
+    want = {k: view(o) for k, o in objs.items()}
+    ops = ["A", "B", "C", "load"]
+    seen_v = set()
+    with tempfile.TemporaryDirectory(prefix="c19h_") as d:
+        n = 0
+        for L in range(2, unit["length"] + 1):
+            for word in itertools.product(ops, repeat=L):
+                if word[0] == "load" or word[-1] != "load":
+                    continue
+                n += 1
+                path = os.path.join(d, f"r{n % 3}.pkl")  # paths are reused across words as well
+                last = None
+                res.executions += 1
+                for pos, op in enumerate(word):
+                    res.transitions += 1
+                    try:
+                        if op == "load":
+                            got = view(SamplingResults.pkl_load(path))
+                            res.outcome("pickle-history", "load-after", last, "first-load" if "load" not in word[:pos] else "later-load")
+                            if got != want[last] and "stale" not in seen_v:
+                                seen_v.add("stale")
+                                res.violation("pickle", "load-returns-not-the-last-saved", {"word": list(word), "pos": pos},
+                                              f"ops {list(word[:pos + 1])} on one path: pkl_load returned error codes {got[0]} / epochs {got[1]}, last saved was {last}: {want[last][0]} / {want[last][1]}")
+                        else:
+                            objs[op].pkl_save(path)
+                            last = op
+                    except Exception as e:
+                        if not _liesel_raised(e):
+                            raise
+                        if "raises" not in seen_v:
+                            seen_v.add("raises")
+                            res.violation("pickle", f"history-raises-{type(e).__name__}", {"word": list(word), "pos": pos}, f"ops {list(word[:pos + 1])}: {e!r}")
+                        break
+    res.states += n
+    res.note(["pickle-history", unit["length"], n])
+
+
+def run_minimize_unit(res, unit):
+    """Engine option minimize_transition_infos: for every built-in kernel class the transition info
+    type it returns is instantiated for every documented error code x acceptance value x moved flag
+    (kernel-specific diagnostics consistent with the code) and minimize() must keep these three fields."""
+    import dataclasses
+    import typing
+
+    import jax.numpy as jnp
+    import liesel.goose as gs
+    from liesel.goose.kernel import DefaultTransitionInfo
+
+    kernels = [gs.RWKernel, gs.IWLSKernel, gs.HMCKernel, gs.NUTSKernel, gs.MHKernel, gs.GibbsKernel]
+    seen = set()
+    for K in kernels:
+        # the info class is the second type argument of the TransitionMixin base / the return type
+        info_cls = None
+        for base in getattr(K, "__orig_bases__", ()):
+            for a in typing.get_args(base):
+                if isinstance(a, type) and dataclasses.is_dataclass(a) and hasattr(a, "minimize"):
+                    info_cls = a
+        if info_cls is None:
+            info_cls = DefaultTransitionInfo
+        if info_cls in seen:
+            continue
+        seen.add(info_cls)
+        names = [f.name for f in dataclasses.fields(info_cls)]
+        codes = sorted(K.error_book)
+        for code in codes:
+            for ap in (0.0, 0.25, 1.0):
+                for moved in (0, 1):
+                    kw = {}
+                    for n in names:
+                        if n == "error_code":
+                            kw[n] = jnp.int32(code)
+                        elif n == "acceptance_prob":
+                            kw[n] = jnp.float32(ap)
+                        elif n == "position_moved":
+                            kw[n] = jnp.int32(moved)
+                        elif n == "divergent":
+                            kw[n] = jnp.bool_(code & 1)
+                        elif n == "maximum_tree_depth":
+                            kw[n] = jnp.bool_(code & 2)
+                        else:
+                            kw[n] = jnp.int32(3)
+                    info = info_cls(**kw)
+                    res.executions += 1
+                    res.transitions += 1
+                    try:
+                        m = info.minimize()
+                        got = (int(m.error_code), float(m.acceptance_prob), int(m.position_moved))
+                    except Exception as e:
+                        if not _liesel_raised(e):
+                            raise
+                        res.violation("minimize", f"raises-{info_cls.__name__}", {"kernel": K.__name__, "code": code}, f"{info_cls.__name__}.minimize() raised {e!r}")
+                        break
+                    res.outcome("minimize", info_cls.__name__, code)
+                    if got != (code, ap, moved):
+                        res.violation("minimize", f"fields-changed-{info_cls.__name__}", {"kernel": K.__name__, "code": code, "acceptance_prob": ap, "moved": moved},
+                                      f"{info_cls.__name__}(error_code={code}, acceptance_prob={ap}, position_moved={moved}).minimize() holds (error_code, acceptance_prob, position_moved) = {got}: "
+                                      "with minimize_transition_infos=True the stored error codes are not the codes the transitions returned")
+                        break
+    res.states += len(seen)
+    res.note(["minimize", sorted(c.__name__ for c in seen)])
+
+
 def run_unit(unit):
     core.assert_repo()
     res = core.UnitResult(unit)
+    if unit["kind"] == "minimize":
+        run_minimize_unit(res, unit)
+        return res
+    if unit["kind"] == "pickle-history":
+        from mc.seams import quiet
+
+        with quiet():
+            run_pickle_history_unit(res, unit)
+        return res
     import time
     import warnings
 
